@@ -460,19 +460,25 @@ def streams(ck: Check) -> None:
 
 
 def check(ck: Check) -> None:
-    ck.rule = ("all shipped instances + exhaustive/sampled instances with W,H<=6 and <=3 item types (exact optimum by an "
-               "exhaustive packer, witness validated by Pack.Feasible) + threshold/boundary and random instances W,H<=200, "
-               "<=40 items, both orientations (witness: best bottom-left decoding) + guillotine-cut perfect and thinned packings "
-               "+ bins up to 1e12 + function-level __lb_q on arbitrary non-increasing lists (also W<H, q outside the range) and __cutsq on single rows; a case is one protocol "
-               "line; non-trivial = constructor accepted; distinct by line hash")
+    ck.rule = ("all 557 shipped instances + instances with W,H<=6 and 1-2 item types (exhaustive in the thorough tier, sampled "
+               "in quick) and 3 types (sampled), each with the exact optimum of an exhaustive packer (witness validated by the "
+               "Lean spec Pack.Feasible) + threshold/boundary and random instances W,H<=200, <=40 items, both orientations "
+               "(witness: best bottom-left decoding of the repository's encoding) + squares around the S2/S3 frontier (exact "
+               "optimum or bottom-left witness) + guillotine-cut perfect and thinned packings (optimum known by construction) "
+               "+ bins with one side up to 1e12 and bins of ~1e4 with squares at the half-bin thresholds + function-level "
+               "__lb_q on non-increasing lists (also W<H, q outside its range) and __cutsq on single rows + rejected "
+               "instances; a case is one protocol line; non-trivial = constructor accepted; distinct by line hash")
     ck.assumptions += [
         "Python int/float comparison `l > W/2` is exact and W/2 is exactly representable for W < 2^53 (Valid bounds W,H <= 1e12); "
         "the model compares 2*l > W",
-        "list.sort(reverse=True) returns the non-increasing rearrangement (modelled by an insertion sort)",
+        "list.sort(reverse=True) returns the non-increasing rearrangement (modelled by an insertion sort, proved sorted + permutation)",
         "the code's index lists s1..s4 are modelled by the lists of the values j_js[i] in the same order",
         "numpy int(row[i]) conversions and the ndarray subclass machinery of Instance are outside the model",
-        "check_int_range on the two bounds (1..1e12) is outside the model; the harness observes no rejection",
+        "the exact packer and the guillotine generator of the harness are untrusted: every witness packing is validated by the "
+        "Lean specification Pack.Feasible through the driver before it is used",
     ]
-    ck.not_proved += []
+    ck.not_proved += []   # the full statement Pack.LowerBoundLeBins is proved (Pack.lowerBoundLeBins), all five layers
+    ck.notes.append("layers: cutsq_tiles (1), bin_facts (2+4), greedy_matching_dominates (3), lbQ_le_bins/damv_le_bins (5); "
+                    "corollaries lowerBound_le_nItems, minBins_eq, bounds_in_range (final check_int_range never rejects)")
     ck.lean(["Props.C03"], THEOREMS)
     streams(ck)
